@@ -1167,12 +1167,16 @@ class Interp:
         for t in getattr(s, "targets", [getattr(s, "target", None)]):
             if t is not None:
                 _target_names(t, names)
+        cnt = self.__dict__.setdefault("_assign_cnt", {})
         for nm in sorted(names):
-            for i, cl in enumerate(c.asserts.get(nm, [])):
-                if cl.startswith("ghost:"):
-                    self.exec_ghost(cl[6:], env)
-                    continue
-                self.path.prove(self.eval_spec(cl, env), "%s/assert-after:%s#%d" % (c.short, nm, i), "assert", where=cl)
+            # "var" = after every assignment of var; "var@k" = only after its k-th assignment on this path (1-based)
+            cnt[nm] = cnt.get(nm, 0) + 1
+            for key in (nm, "%s@%d" % (nm, cnt[nm])):
+                for i, cl in enumerate(c.asserts.get(key, [])):
+                    if cl.startswith("ghost:"):
+                        self.exec_ghost(cl[6:], env)
+                        continue
+                    self.path.prove(self.eval_spec(cl, env), "%s/assert-after:%s#%d" % (c.short, key, i), "assert", where=cl)
 
     def ex_AnnAssign(self, s, env):
         if s.value is None:
